@@ -1,15 +1,22 @@
 // Package c19: saved view configurations are durable and faithfully restored.
 //
 // (a) config <-> URL: every config field x value menu, saved through the real
-//     setConfig and restored through the menu URL the web UI would offer.
+//
+//	setConfig and restored through the menu URL the web UI would offer.
+//
 // (b) histories of save/delete operations (explicit-state BFS; state = parsed
-//     settings file) against an ordered-list model.
+//
+//	settings file) against an ordered-list model.
+//
 // (c) crash points and I/O faults: for every operation from every state reachable
-//     in <= k steps, every fault alternative of every file operation (error,
-//     short write at every byte, kill at every byte) - afterwards the file holds
-//     the complete old or the complete new contents.
+//
+//	in <= k steps, every fault alternative of every file operation (error,
+//	short write at every byte, kill at every byte) - afterwards the file holds
+//	the complete old or the complete new contents.
+//
 // (d) schedules: all interleavings (preemption bound) of 2-3 concurrent
-//     save/delete requests - the final file equals some sequential order.
+//
+//	save/delete requests - the final file equals some sequential order.
 package c19
 
 import (
